@@ -7,6 +7,7 @@ mod tables;
 mod position;
 mod posprops;
 mod engine;
+mod glue;
 
 use common::Out;
 
@@ -47,6 +48,9 @@ fn main() {
         "c11" => engine::c11(&mut out, thorough),
         "c12" => engine::c12(&mut out, thorough),
         "c13" => engine::c13(&mut out, thorough),
+        "glue06" => glue::glue06(&mut out, thorough),
+        "glue11" => glue::glue11(&mut out, thorough),
+        "glue17" => glue::glue17(&mut out, thorough),
         "c15" => engine::c15(&mut out, thorough, args.get(5).map(|s| s.as_str()).unwrap_or("")),
         _ => {
             eprintln!("unknown stream {stream}");
